@@ -341,6 +341,26 @@ fn worker_digest(wid: u64, seed: u64, steps: usize, delays: bool, shared: Option
     }
     let mut g = BarGen::new(BarStyle::Mixed, 1.0, seed ^ wid.wrapping_mul(0x51ED));
     let mut local_stamps: Vec<(u64, u8)> = Vec::new();
+    // Canaries for hidden per-thread state of the floating-point unit (flush-to-zero / rounding mode): an
+    // EMA decaying through the subnormal range is digested first, then indicators are driven through their
+    // rare branches (ties, flat windows, zero flow) which must leave the thread as they found it. The
+    // sequential reference runs all workers on ONE thread, so a mode left behind by worker w changes the
+    // canary of worker w+1 there but not on the fresh threads of the parallel run.
+    {
+        let mut canary = Inst::new(&variant(Kind::Ema, 2));
+        let mut x = 1e-300;
+        for _ in 0..60 {
+            digest_out(&mut h, &canary.apply(&Op::NextF(x)));
+            x *= 1e-1;
+        }
+        for kind in ALL_KINDS {
+            let mut rare = Inst::new(&variant(kind, 1));
+            for i in 0..6 {
+                let op = if kind.has_scalar() { Op::NextF(10.0) } else { Op::NextBar(Bar::flat(10.0, if i % 2 == 0 { 0.0 } else { 5.0 })) };
+                digest_out(&mut h, &rare.apply(&op));
+            }
+        }
+    }
     for step in 0..steps {
         let b = g.next();
         let x = b.c;
